@@ -2,6 +2,7 @@
     and per-call part; monotonicity over histories is in the job stream's monitor and in
     Props/C09.v [listed_forever], [timestamps_retained]). *)
 From Furiko Require Import Job.Core Job.Sync Job.World Proofs.JobP Proofs.HistoryP Props.C10.
+From Furiko Require Proofs.UniqueP Proofs.TimesP.
 
 (** Exactly one of queueing / waiting / running / finished: the model's condition is a
     sum type, and the correspondence stream compares it with the four pointer fields of
@@ -80,6 +81,34 @@ Theorem c11_tasks_never_dropped_forever :
       forall n, In n (map tr_name (j_tasks a1)) -> In n (map tr_name (j_tasks a2)).
 Proof. intros cfg j0 now ops1 ops2. exact (proj1 (recorded_forever cfg j0 now ops1 ops2)). Qed.
 Print Assumptions c11_tasks_never_dropped_forever.
+
+(** a task's recorded running / finish times are never cleared: for every history (as above)
+    that starts from a Job with distinct index hashes and a well-formed status, a time recorded
+    for a task in some version of the Job in the API is still recorded in every later version
+    (the status the controller computes merges each observed Pod into the ref recorded under
+    its name - unique, Props/C09.v - and only adds times; the API accepts a status only
+    against the version it was computed from) *)
+Theorem c11_times_never_cleared_forever :
+  forall cfg j0 now ops1 ops2 a1 a2,
+    NoDup (j_indexes j0) -> UniqueP.JWF j0 -> Forall UniqueP.jop_ok (ops1 ++ ops2) ->
+    let w1 := jrun_world cfg (init_jworld j0 now) ops1 in
+    let w2 := jrun_world cfg w1 ops2 in
+    api_job w1 = Some a1 -> api_job w2 = Some a2 ->
+    forall e, In e (j_tasks a1) -> exists r, In r (j_tasks a2) /\ tr_name r = tr_name e /\
+      (tr_running e <> None -> tr_running r <> None) /\ (tr_finish e <> None -> tr_finish r <> None).
+Proof. exact TimesP.times_never_cleared. Qed.
+Print Assumptions c11_times_never_cleared_forever.
+
+(** ... and the number of recorded tasks never decreases (names are never dropped and never
+    listed twice: Props/C09.v) *)
+Theorem c11_task_count_never_decreases :
+  forall cfg j0 now ops1 ops2 a1 a2,
+    NoDup (j_indexes j0) -> UniqueP.JWF j0 -> Forall UniqueP.jop_ok ops1 ->
+    let w1 := jrun_world cfg (init_jworld j0 now) ops1 in
+    let w2 := jrun_world cfg w1 ops2 in
+    api_job w1 = Some a1 -> api_job w2 = Some a2 -> (List.length (j_tasks a1) <= List.length (j_tasks a2))%nat.
+Proof. exact UniqueP.task_count_never_decreases. Qed.
+Print Assumptions c11_task_count_never_decreases.
 
 Definition ex_hist_job : job :=
   mkJob ["aaaaaa"%string] false AllSuccessful 2 0 false false None false None None false true None None
